@@ -52,6 +52,7 @@ type World struct {
 	nilFilters      *[]string
 	prefixFwdMemo   map[*ssa.Function]*ssa.Call
 	boolNilTab      map[string]nilImplication
+	nilOnlyDepth    int
 	inlineDeep      bool
 	inlTwin         map[string]string
 	n4Deep          bool
